@@ -306,6 +306,19 @@ fn targeted_cases(mini: &'static IfaceDesc, pzoo: &'static IfaceDesc) -> Vec<(&'
             v.push((pzoo, MsgAst { units: vec![u], trailing_semicolon: false }, if b == b'\n' { "payload-newline" } else { "payload-other" }));
         }
     }
+    // long payloads (length > 255, length field of 3 and 9 digits), newlines inside
+    for (len, width) in [(256usize, 3usize), (300, 3), (300, 9), (700, 4)] {
+        let mut payload: Vec<u8> = (0..len).map(|i| (i * 7 + 3) as u8).collect();
+        payload[len / 2] = b'\n';
+        payload[len - 1] = b'\n';
+        let mut path = Vec::new();
+        let u = mk(&gp, "P:BLK", &mut path, vec![blk_lit(&payload, width)], vec![Arg::Blk(payload.clone())], &mut rng);
+        v.push((pzoo, MsgAst { units: vec![u], trailing_semicolon: false }, "payload-newline"));
+        let text: String = (0..len).map(|i| if i % 97 == 50 { '\n' } else { (b'a' + (i % 26) as u8) as char }).collect();
+        let mut path = Vec::new();
+        let u = mk(&gp, "P:STR", &mut path, vec![str_lit(&text, b'"')], vec![Arg::Str(text.as_bytes().to_vec())], &mut rng);
+        v.push((pzoo, MsgAst { units: vec![u], trailing_semicolon: false }, "payload-newline"));
+    }
     // strings: special characters, both quote kinds
     let specials = [";", ",", ":", "#", " ", "\t", "\n", "\r\n", "?", "*", "\u{e9}", "\u{1F600}", "\\", "\u{0}", "\u{7f}", "#12ab", "1;2", "A:B"];
     for sp in specials {
